@@ -44,6 +44,11 @@ ASSUMPTIONS = [
     'harness threads hash to their index so that CPython iterates the set in ascending index order like the model '
     '(iteration order does not influence whether a callback is lost)',
     'the `done` callback is given; it may raise',
+    'progress (C18_no_deadlock, C18_bounded_after_end, C18_close_can_return): proved on the model; the only fairness '
+    'assumption for "close() eventually returns" is that the thread calling close() gets to execute its <= 3 lock-free '
+    'accesses up to `self._closed = True` (before that the monitor loops by design); afterwards the number of effective '
+    'steps is bounded by the measure mu under any scheduler. time.sleep(interval) and Thread.join are not modelled as '
+    'delays. On the real class progress is exercised by the drained runs (signature thread:deadlock / thread:close-hangs)',
     'task half: no task is registered again after it ended (twf); a re-registration of an ended task fires the '
     'callback once more (modelled and checked by the correspondence, excluded from the theorem)',
 ]
